@@ -106,8 +106,33 @@ class MinimizeStub:
             for v in np.asarray(vals, dtype=object).ravel():
                 env.assume(env.num(v) == 0)
         fun = func(xarr)
+        # which components do the equality constraints it was handed actually pin?  (probe: a component is
+        # constrained iff moving it alone changes some constraint function)
+        pinned = set()
+        if n:
+            base = [float(i + 2) for i in range(n)]
+            for c in constraints or ():
+                f0 = np.asarray(c["fun"](np.asarray(base, dtype=object)), dtype=object).ravel()
+                for i in range(n):
+                    v = list(base)
+                    v[i] = v[i] + 1.0
+                    f1 = np.asarray(c["fun"](np.asarray(v, dtype=object)), dtype=object).ravel()
+                    for a, b in zip(f0, f1):
+                        d = env.num(b) - env.num(a)
+                        dz = d.v if hasattr(d, "v") else d
+                        try:
+                            import z3 as _z3
+                            if isinstance(dz, _z3.ExprRef):
+                                dz = _z3.simplify(dz)
+                                nz = not (_z3.is_rational_value(dz) and dz.numerator_as_long() == 0)
+                            else:
+                                nz = float(dz) != 0.0
+                        except Exception:  # noqa: BLE001
+                            nz = True
+                        if nz:
+                            pinned.add(i)
         self.calls.append(dict(x0=list(x0), bounds=bounds, constraints=constraints, method=method, jac=jac, tol=tol,
-                               options=options, xs=xs, fun=fun))
+                               options=options, xs=xs, fun=fun, pinned=sorted(pinned)))
         return scipy.optimize.OptimizeResult(x=xarr, fun=fun, success=self.success, message="stub", nfev=1, njev=0)
 
 
